@@ -871,3 +871,43 @@ VDRIVE_OP(incluptrace)
 	res["v"] = v;
 	return res;
 }
+
+// ---------------------------------------------------------------- step-level binding of the Layer-2 model Trim
+// {"op":"trimtrace","A","mode":"unreach"|"useless"}: runs the trimmer with the step hook installed; returns Start (with the
+// operand), the Pop events of THIS function's loop (RemoveUselessStates ends with a nested RemoveUnreachableStates whose
+// events are dropped: the model takes that sub-step as a function) and Result (the automaton returned).
+VDRIVE_OP(trimtrace)
+{
+	Alpha alpha;
+	if (c.contains("syms")) { alpha.RegisterAll(c["syms"]); }
+	TA a = MakeTA(c.at("A"), alpha);
+	std::string mode = c.at("mode").get<std::string>();
+	std::vector<std::string> events;
+	g_stepSink = &events;
+	VATA::Util::Verif::Sink() = stepSink;
+	TA r;
+	try { r = (mode == "unreach") ? a.RemoveUnreachableStates() : a.RemoveUselessStates(); }
+	catch (...) { VATA::Util::Verif::Sink() = nullptr; g_stepSink = nullptr; throw; }
+	VATA::Util::Verif::Sink() = nullptr;
+	g_stepSink = nullptr;
+	json evs = json::array();
+	size_t starts = 0;
+	for (const std::string& s : events)
+	{
+		json e = json::parse(s);
+		if (e.at("mode") != mode) { continue; }
+		if (e.at("e") == "Start")
+		{
+			if (++starts > 1) { break; }
+			e["A"] = ReadTA(a, alpha);
+		}
+		evs.push_back(e);
+	}
+	json done;
+	done["e"] = "Result";
+	done["R"] = ReadTA(r, alpha);
+	evs.push_back(done);
+	json res;
+	res["events"] = evs;
+	return res;
+}
